@@ -8,7 +8,7 @@ def register(reg):
                            "_length": "Optional[int]", "on_update": "Optional[opaque:callback]"})
     reg.spec("cr_len_text(length)", "'*' if length is None else str(length)")
     reg.contract(
-        "werkzeug/datastructures/range.py:ContentRange.to_header", prop=P, self_model=CR, returns="str",
+        "werkzeug/datastructures/range.py:ContentRange.to_header", prop=P, self_model=CR, replay="method", returns="str",
         assumes=["(self._start is None) == (self._stop is None)"],
         ensures=[
             "implies(self._units is None, result == '')",
